@@ -257,7 +257,7 @@ def judge(obs, main, exp, exp_log):
         return True, f"native run panicked: {obs['panic'][:200]}"
     if obs.get("aborted") and not (isinstance(exp, (tuple, list)) and exp and exp[0] == "steps"):
         raise Unrealisable(f"the scenario could not be built through the public API: {obs.get('steps')}")
-    outs = obs["runs"][0]["outcomes"]
+    outs = obs["runs"][0]["outcomes"] if obs.get("runs") else []
     if isinstance(exp, (tuple, list)) and exp and exp[0] == "outcomes":
         diffs = []
         got_all = [o["value"] for o in outs]
